@@ -364,7 +364,18 @@ func (ex *Exec) applyContract(fr *Frame, st *State, fc *FuncContract, names []st
 	for _, cl := range append(append([]*Clause{}, fc.GhostDefs...), fc.Ensures...) {
 		env := mkEnv(post, pre)
 		bindResults(env, rvals, rnames)
-		ex.cx.assume(implies(post.reach, env.evalBool(cl.Expr)))
+		nU := len(ex.cx.unsupported)
+		nA := len(ex.cx.asserts)
+		et := env.evalBool(cl.Expr)
+		if len(ex.cx.unsupported) != nU {
+			// the clause cannot be expressed in the caller's arithmetic mode
+			// (e.g. a bit-vector formula seen from integer mode): not assumed
+			ex.cx.unsupported = ex.cx.unsupported[:nU]
+			ex.cx.asserts = ex.cx.asserts[:nA]
+			ex.cx.note("postcondition of %s not usable in %s mode at a call site of %s: %s", calleeName, ex.cx.mode, ex.cx.fnName, cl.Src)
+			continue
+		}
+		ex.cx.assume(implies(post.reach, et))
 		if clauseHasQuant(ex, cl.Expr) {
 			cl, postSt := cl, post.clone()
 			ex.qhyps = append(ex.qhyps, qhyp{guard: post.reach, inst: func(sk map[string]SVal) (Term, bool) {
